@@ -16,7 +16,7 @@ UNITS = {
     "sign": dict(engine="verus", serves=["C04", "C10", "C13", "C15"]),
     "keystore":  dict(engine="verus", serves=["C08", "C13"]),
     "keykeeper": dict(engine="verus", serves=["C08", "C09", "C13", "C10"]),
-    "ebpf_c":  dict(engine="cbmc", serves=["C06"], path="c/ebpf", kind="CBMC function contracts (goto-instrument --dfcc) on the unmodified linux-ebpf/ebpf_cgroup.c against a contract-level model of the BPF helpers; gcc replay of counterexamples"),
+    "ebpf_c":  dict(engine="cbmc", serves=["C06", "C07"], path="c/ebpf", kind="CBMC function contracts (goto-instrument --dfcc) on the unmodified linux-ebpf/ebpf_cgroup.c against a contract-level model of the BPF helpers; gcc replay of counterexamples"),
     "ebpf_rs": dict(engine="kani", serves=["C06"], path="kani/ebpf_rs", kind="Kani full-domain harnesses over the real ebpf_obj.rs (#[path]) and byte-for-byte extracted redirector items; layout table shared with the C side"),
     "authorizer": dict(engine="verus", serves=["C03", "C11", "C01", "C13"]),
     "redirect": dict(engine="verus", serves=["C09", "C06", "C13"]),
@@ -215,7 +215,10 @@ PROPERTIES["C13"] = dict(
 )
 
 PROPERTIES["C07"] = dict(
-    units=["conn", "actors"],   # actors: RedirectorSharedState::get_bpf_object (one message, fails only if the actor is gone) - what conn's stub of it assumes
+    # "those recorded by the kernel for that very connection": the kernel side of the record (what the tcp_connect probe stores under the
+    # connection's source port, C06's two-step and kprobe clauses) counts for C07 as well
+    also_labels=["C06.twostep.audit_", "C06.kprobe.local_audit_", "C06.kprobe.fallback_audit_key"],
+    units=["conn", "actors", "ebpf_c"],   # actors: RedirectorSharedState::get_bpf_object (one message, fails only if the actor is gone) - what conn's stub of it assumes
     technique="Verus contracts on the extracted real functions over a ghost kernel audit map (E4 Tracked<&mut Kernel> threaded through lookup/remove down to the aya call sites); whole-map postconditions; history lemmas over arbitrary interleavings of accepts and kernel writes; E5c slices of the accept/service_fn/per-request closures",
     level_text="Deductive proof (Verus/Z3) for all histories under the await-interleaving model: TcpConnectionContext::new/get_audit_entry, redirector::lookup_audit/remove_audit, BpfObject::lookup_audit/remove_audit_map_entry (verbatim; both proved to build the key [IPPROTO_TCP, port] and to decode the value), the AuditEntry decoders and Claims::from_audit_entry are proved to: return exactly the record of this connection's source port, consume it (final map == old.remove(port), every other port untouched), leave the map unchanged on failure, and produce claims/destination only from THAT record (the upstream connection is opened to the decoded destination). Lemmas: a later accept on the same port with no kernel write in between is unattributed, for every interleaving with accepts/writes on other ports; accepts on distinct ports commute. The context handed to each request is proved (three slices) to carry the attribution of the context built at accept time for this connection's peer address.",
     level_note="Trusted: Verus/Z3/rustc; crate aya is not linked (signature stand-in contracts/conn/aya_standin.rs; map()/try_from/get/remove behaviour assumed at 6 E9 sites: get Ok iff key present, remove Ok iff present and removes exactly that key); get_bpf_object stub (BPF object not cleared between lookup and remove of one accept; Mutex not poisoned); derived Clone of TcpConnectionContext copies all fields but the log queue; lexical capture by `move` closures + syntactic census (single caller of handle_new_http_request) link the slices; hyper delivers each request to its connection's service; the E9 range building the upstream sender (only its destination precondition is proved). Refusal with 421 of an unattributed connection is C01's contract (unit handler, refusal_status). Concurrent accepts are covered by the frame (each touches only its own port); OS-thread races inside tokio/hyper are not.",
